@@ -2100,6 +2100,7 @@ class OMPDoDirective(OMPRegionDirective):
         '''
         if self._collapse:
             cursor = self.dir_body.children[0]
+            outer_vars = []
             for depth in range(self._collapse):
                 if (len(cursor.parent.children) != 1 or
                         not isinstance(cursor, Loop)):
@@ -2109,6 +2110,14 @@ class OMPDoDirective(OMPRegionDirective):
                         f"'{self}' has a collapse={self._collapse} and the "
                         f"nested body at depth {depth} cannot be "
                         f"collapsed.")
+                if any(ref.symbol in outer_vars
+                       for expr in cursor.children[:3]
+                       for ref in expr.walk(Reference)):
+                    raise GenerationError(
+                        f"{type(self).__name__} cannot collapse a loop whose "
+                        f"bounds depend on the variable of an outer collapsed "
+                        f"loop ('{cursor.variable.name}').")
+                outer_vars.append(cursor.variable)
                 cursor = cursor.loop_body.children[0]
 
     def _validate_single_loop(self):
@@ -2561,6 +2570,7 @@ class OMPLoopDirective(OMPRegionDirective):
         # nested loops as the collapse value
         if self._collapse:
             cursor = self.dir_body.children[0]
+            outer_vars = []
             for depth in range(self._collapse):
                 if (len(cursor.parent.children) != 1 or
                         not isinstance(cursor, Loop)):
@@ -2570,6 +2580,14 @@ class OMPLoopDirective(OMPRegionDirective):
                         f"'{self}' has a collapse={self._collapse} and the "
                         f"nested statement at depth {depth} is a "
                         f"{type(cursor).__name__} rather than a Loop.")
+                if any(ref.symbol in outer_vars
+                       for expr in cursor.children[:3]
+                       for ref in expr.walk(Reference)):
+                    raise GenerationError(
+                        f"{type(self).__name__} cannot collapse a loop whose "
+                        f"bounds depend on the variable of an outer collapsed "
+                        f"loop ('{cursor.variable.name}').")
+                outer_vars.append(cursor.variable)
                 cursor = cursor.loop_body.children[0]
 
         super().validate_global_constraints()
